@@ -17,6 +17,15 @@ def cases(rng, tier):
     n = 350 if tier == "quick" else 5000
     for i in range(n):
         yield rvasmgen.asm_case(rng, fault_prob=0.25)
+    # by-name access pairs (the same pseudo-instruction wherever it occurs, whatever came before it), comments with several '#'
+    import props.c05 as c05
+    for c5 in c05.byname_sequences(rng):
+        yield Case("asm", [f"asm {rvasmgen.hx(c5.meta['text'])}"], None, {"text": c5.meta["text"], "kind": "valid", "abstract": c5.meta["abstract"]})
+    for i in range(12 if tier == "quick" else 200):
+        items, decls = rvasmgen.gen_abstract(rng)
+        t = rvasmgen.render(rng, items, decls, canonical=True)
+        t = "\n".join(l + rng.choice([" # see issue #12", " ## body", " # a # b # c", "#x#", ""]) if l.strip() and not l.strip().startswith(".") and "'" not in l and '"' not in l else l for l in t.split("\n"))
+        yield Case("asm", [f"asm {rvasmgen.hx(t)}"], None, {"text": t, "kind": "valid", "abstract": (items, decls)})
     # sanitize-irrelevance pairs: the canonical rendering and a noisy rendering of the same abstract program
     for i in range(40 if tier == "quick" else 600):
         items, decls = rvasmgen.gen_abstract(rng)
